@@ -878,6 +878,19 @@ impl<'tera> VirtualMachine<'tera> {
                         &root
                     };
 
+                    // Same as `WriteTop`: an entry that is there but holds an undefined value
+                    // (eg `{"a": missing_var}`) cannot be printed
+                    if val.is_undefined() {
+                        let span = chunk
+                            .get_span_at(current_ip, num_attrs)
+                            .expect("to have a span for error");
+                        return Err(self.rendering_error(
+                            "Tried to render a variable that is not defined".to_string(),
+                            chunk,
+                            span,
+                        ));
+                    }
+
                     if !self.autoescape_enabled() || val.is_safe() {
                         if let Some(captured) = state.capture_buffers.last_mut() {
                             val.format(captured)?;
